@@ -273,6 +273,16 @@ def _outputs(S, kind, model_, lik, x, xs, y):
         po = lik(model(xs))
         out["posterior.mean (as restored, no mode switch)"] = as_sym_arr(SH.get(po.mean)).copy()
         out["posterior.cov (as restored, no mode switch)"] = as_sym_arr(SH.get(po.covariance_matrix)).copy()
+    if kind == "var" and model.training:
+        # a restore point in the middle of training: q(u) and the KL term are read before the next forward pass.
+        # (Whitened strategy only: the unwhitened strategy's training-mode forward caches p(u) with variational_cholesky_jitter
+        # while its un-cached prior_distribution adds add_jitter()'s default 1e-3, so its KL before/after a forward differs by
+        # that jitter on ANY model, restored or not - a jitter convention, see DESIGN.md section 5, not a restoration failure.)
+        vs_ = model_.variational_strategy
+        out["kl (as restored in training mode, before any forward)"] = as_sym_arr(SH.get(vs_.kl_divergence())).copy()
+        qu = vs_.variational_distribution
+        out["q(u).mean (as restored in training mode)"] = as_sym_arr(SH.get(qu.mean)).copy()
+        out["q(u).cov (as restored in training mode)"] = as_sym_arr(SH.get(qu.covariance_matrix)).copy()
     if kind in VAR_KINDS and not model.training:
         qf = model(xs)
         out["q(f).mean (as restored, no mode switch)"] = as_sym_arr(SH.get(qf.mean)).copy()
@@ -386,6 +396,21 @@ def roundtrip(S, kind, mechanism, savepoint):
             if kind in VAR_KINDS:
                 flik.load_state_dict(sdl)
             rest, rlik = fresh, flik
+        elif mechanism == "state_dict_into_training":
+            # the receiver is itself in the middle of training (it has done a forward / objective step in training mode)
+            sd, sdl = orig.state_dict(), lik.state_dict()
+            fresh, flik = _build(S, kind, 1, x.clone(), y.clone(), Z)
+            _symbolize(S, fresh, "f_")
+            fresh.train(); flik.train()
+            if kind in VAR_KINDS:
+                fresh.variational_strategy.variational_params_initialized.fill_(1)
+                _ = gpytorch.mlls.VariationalELBO(flik, fresh, num_data=5)(fresh(*_args(kind, x)), y)
+            else:
+                _ = fresh(*_args(kind, x))
+            fresh.load_state_dict(sd)
+            if kind in VAR_KINDS:
+                flik.load_state_dict(sdl)
+            rest, rlik = fresh, flik
         elif mechanism == "pickle":
             global STORAGES
             index = value_index()
@@ -400,8 +425,10 @@ def roundtrip(S, kind, mechanism, savepoint):
         if kind in EXACT_KINDS:
             rlik = rest.likelihood
             lik = orig.likelihood
-        if mechanism.startswith("state_dict") and not orig.training:
-            rest.eval(); rlik.eval()  # same mode as the saved model; for the used receiver this is a no-op (already eval)
+        if mechanism.startswith("state_dict") and rest.training != orig.training:
+            # a state dict does not carry the mode: the receiver is put in the saved model's mode (a no-op for the used
+            # receivers whose mode already matches)
+            rest.train(orig.training); rlik.train(orig.training)
         want = _outputs(S, kind, orig, lik, x, xs, y)
         got = _outputs(S, kind, rest, rlik, x, xs, y)
     for k in want:
@@ -496,13 +523,14 @@ def scenarios(tier, seed):
     out = []
     def add(fn, **p):
         out.append({"sid": fn + ":" + ",".join("%s=%s" % kv for kv in sorted(p.items())), "fn": fn, "params": p})
-    mechs = ["state_dict", "state_dict_into_used", "pickle", "deepcopy"]
+    mechs = ["state_dict", "state_dict_into_used", "state_dict_into_training", "pickle", "deepcopy"]
     saves = ["constructed", "predicted", "switched", "training"]
     if tier == "quick":
         combos = [("exact", "state_dict", "constructed"), ("exact", "state_dict_into_used", "predicted"), ("exact", "pickle", "predicted"),
                   ("exact", "deepcopy", "switched"), ("exact", "pickle", "constructed"),
                   ("sgpr", "state_dict", "predicted"), ("sgpr", "state_dict_into_used", "predicted"), ("sgpr", "pickle", "switched"), ("sgpr", "deepcopy", "predicted"),
-                  ("var", "state_dict", "constructed"), ("var", "state_dict_into_used", "predicted"), ("var", "pickle", "predicted"), ("var", "deepcopy", "training")]
+                  ("var", "state_dict", "constructed"), ("var", "state_dict_into_used", "predicted"), ("var", "pickle", "predicted"), ("var", "deepcopy", "training"),
+                  ("var", "state_dict_into_training", "training")]
         combos += [("kiss", "state_dict", "predicted"), ("kiss", "pickle", "constructed"), ("rff", "state_dict", "constructed"), ("rff", "deepcopy", "predicted"),
                    ("hadamard", "state_dict", "predicted"), ("hadamard", "pickle", "switched"), ("var2", "state_dict", "constructed"), ("var2", "pickle", "predicted")]
         for k, mth, sp in combos:
